@@ -95,6 +95,15 @@ std::string token(vf::ByteSource& b) {
   // colliding pool incl. empty, NUL, BMP/astral neighbours, invalid UTF-8
   static const std::string pool[] = {"a", "b", "", "c", "a b", "a+b", "%41", "A", "\xc3\xa9", "\xef\xbf\xbf", "\xf0\x90\x80\x80", "\xee\x80\x80", std::string("\0", 1), std::string("a\0b", 3), "\xff", "\xc3", "\xed\xa0\x80", "&", "=", "a=b", "a&b", "?", "#", "%", "%zz", "+", " ", "\xf0\x9f\x98\x80", "z", "aa", "ab", "\xef\xbd\x81", "\x7f", "~", "*-._", "\xd7\x90", "\xf4\x8f\xbf\xbf"};
   if (b.chance(40)) return b.raw(6);
+  if (b.chance(70)) {
+    // names of 1-3 code points from a tiny alphabet, so that names share prefixes, high
+    // surrogates (U+1F308/U+1F309/U+1F30A) and differ only in the last UTF-16 code unit
+    static const char* cps[] = {"a", "b", "\xc3\xa9", "\xef\xbf\xbf", "\xf0\x90\x80\x80", "\xf0\x9f\x8c\x88", "\xf0\x9f\x8c\x89", "\xf0\x9f\x8c\x8a", "\xee\x80\x80", "\xf0\x9f\x98\x80"};
+    std::string s;
+    unsigned n = 1 + b.below(3);
+    for (unsigned i = 0; i < n; i++) s += b.pick(cps);
+    return s;
+  }
   return pool[b.below(sizeof(pool) / sizeof(pool[0]))];
 }
 std::string init_string(vf::ByteSource& b) {
